@@ -62,8 +62,9 @@ def main():
     res["detected"] = any(c["exit"] == 1 for c in res["checks"].values())
     dst = os.path.join("/verif/seeded", name)
     os.makedirs(dst, exist_ok=True)
-    shutil.copy(patch, dst)
-    shutil.copy(os.path.join(src, "demo_test.go"), dst)
+    if os.path.abspath(src) != os.path.abspath(dst):
+        shutil.copy(patch, dst)
+        shutil.copy(os.path.join(src, "demo_test.go"), dst)
     meta["ran"] = meta.get("ran", "")
     prev = {}
     if os.path.exists(os.path.join(dst, "meta.json")):
